@@ -36,7 +36,8 @@ RULE = ('cases: matrices 1x1..4x4 (rectangular for svd / pinv / jack_matmul / ei
         'central values, original again); non-trivial: an identity whose terms have non-zero fluctuations was judged on a '
         'matrix of dimension >= 2 (1x1 cases count when an entry is complex or lists had to be aligned); distinct = digest of (operation, '
         'shapes, central values, chain layout)')
-ASSUMPTIONS = ['products: direct arithmetic, 1e-11 of sum |gradient| max|fluctuation|; decompositions: 1e-10 x condition number (inverse relative gap) x that scale',
+ASSUMPTIONS = ['products: direct arithmetic, 1e-13 of sum |gradient| max|fluctuation|; decompositions: 1e-12 x condition number (inverse relative gap) x that scale '
+               '(observed residuals <= 1e-15 of it); matrices with condition number up to ~1e3 in the ill-conditioned rows',
                'jackknife: 2e-12 x N x max|sample| (cancellation in the pseudo-values); C/N bound for the agreement with the linear product',
                'replica means are judged for polynomial results (matmul, det), not for decompositions (ordering / sign conventions at the replica means)',
                'complex entries only for the operations documented for CObs (matmul, inv, jack_matmul, einsum); deliberate refusals '
@@ -184,15 +185,22 @@ def spaced(rng, k, lo, hi, mingap):
     return np.linspace(lo, hi, k)
 
 
+COND = {'max': 30.0, 'smin': 0.3, 'lo': None}     # the ill-conditioned rows raise max / lower smin for one case
+
+
 def central_matrix(rng, kind, n, m=None, cplx=False):
     m = n if m is None else m
     k = min(n, m)
     if kind == 'general':
         s = spaced(rng, k, 0.8, 3.0, 0.3)
+        if COND['lo'] is not None and k > 1:
+            s[0] = COND['lo']                       # one small singular value: condition number 1e2 .. 1e3
         u, v = rand_unitary(rng, n, cplx), rand_unitary(rng, m, cplx)
         return (u[:, :k] * s) @ v[:k, :]
     if kind == 'spd':
         ev = spaced(rng, n, 0.8, 4.0, 0.5)
+        if COND['lo'] is not None and n > 1:
+            ev[0] = COND['lo']
         q = rand_unitary(rng, n, False)
         a = (q * ev) @ q.T
         return (a + a.T) / 2
@@ -376,10 +384,10 @@ def judge_zero(ctx, tape, r, op, ident, what, kappa):
     mech = '%s:%s' % (op, ident)
     ctx.count('judged:' + mech)
     ctx.ev()
-    vt = 1e-12 * kappa * max(sz['vscale'], 1.0)
+    vt = 1e-13 * kappa * max(sz['vscale'], 1.0)          # pass 4: was 1e-12 (observed <= 1e-15 kappa)
     if not sz['value'] <= vt:
         ctx.violation(mech + ':value', {'what': what, 'residual': sz['value'], 'tol': vt, 'kappa': kappa})
-    ft = kappa * (1e-10 * sz['fscale'] + 1e-13 * sz['dall'])
+    ft = kappa * (1e-12 * sz['fscale'] + 1e-14 * sz['dall'])          # pass 4: was 1e-10 / 1e-13 (observed <= 1e-15 kappa x scale)
     if sz['fscale'] > 0:
         bucket(ctx, op, sz['fluct'] / (kappa * (sz['fscale'] + 1e-3 * sz['dall'])) if sz['fluct'] > 0 else 0)
     ctx.ev()
@@ -387,7 +395,7 @@ def judge_zero(ctx, tape, r, op, ident, what, kappa):
         ctx.violation(mech + ':fluctuations', {'what': what, 'residual': sz['fluct'], 'tol': ft, 'scale': sz['fscale'], 'kappa': kappa, 'where': sz['where']})
     if sz['cscale'] > 0:
         ctx.ev()
-        if not sz['cov'] <= kappa * (1e-10 * sz['cscale'] + 1e-13 * sz['call']):
+        if not sz['cov'] <= kappa * (1e-12 * sz['cscale'] + 1e-14 * sz['call']):
             ctx.violation(mech + ':covariance-gradient', {'what': what, 'residual': sz['cov'], 'scale': sz['cscale'], 'kappa': kappa})
     return sz
 
@@ -578,7 +586,7 @@ def case_matmul(ctx, rng, nfac, entries, layout):
                             c.violation('matmul:part-is-number-but-depends-on-observables', {'what': what, 'part': part})
                         continue
                     compare_obs(c, g, ref, 'matmul:%s:differs-from-explicit-sum-of-products' % ('complex-' + part if expect_complex else 'real'),
-                                scale=scale, rtol=1e-11, vtol=1e-12, what=what, value_scale=max(vscale, abs(ref['value']), 1e-300), rv_tol=1e-11)
+                                scale=scale, rtol=1e-13, vtol=1e-13, what=what, value_scale=max(vscale, abs(ref['value']), 1e-300), rv_tol=1e-13)
         return tape
 
     def judge(c, ops):
@@ -658,7 +666,11 @@ def mean_symmetrise(ctx, rng, chains, a):
                 how = 'independent'
             if how == 'independent':
                 fresh = chains.obs(target)
-                a[j, i] = fresh - fresh.value + target
+                # exactly equal means, or NEARLY equal ones (relative 1e-9 / 1e-6): a tolerance-based symmetry test must not decide anything
+                near = float(rng.choice([0.0, 0.0, 1e-9, 1e-6]))
+                a[j, i] = fresh - fresh.value + target * (1.0 + near)
+                if near:
+                    ctx.count('nearly_symmetric_pairs')
             elif how == 'number':
                 a[j, i] = target
             else:
@@ -708,7 +720,7 @@ def case_inv(ctx, rng, n, entries, layout, ms=False):
         desc = describe(a)
         mc = central(desc)
         cond = float(np.linalg.cond(mc))
-        if not cond < 30:
+        if not cond < COND['max']:
             raise Skip()
         what = 'inv n=%d entries=%s layout=%s cond=%.1f' % (n, entries, layout, cond)
         any_cobs = any(is_cobs(x) for x in a.ravel())
@@ -738,7 +750,7 @@ def case_cholesky(ctx, rng, n, entries, layout):
         desc = describe(a)
         mc = np.real(central(desc))
         ev = np.linalg.eigvalsh(mc)
-        if not (ev[0] > 0.3 and ev[-1] / ev[0] < 30):
+        if not (ev[0] > COND['smin'] and ev[-1] / ev[0] < COND['max']):
             raise Skip()
         cond = float(ev[-1] / ev[0])
         what = 'cholesky n=%d entries=%s layout=%s cond=%.1f' % (n, entries, layout, cond)
@@ -791,7 +803,7 @@ def case_det(ctx, rng, n, entries, layout, ms=False):
     desc = describe(a)
     mc = np.real(central(desc))
     cond = float(np.linalg.cond(mc))
-    if not cond < 30:
+    if not cond < COND['max']:
         raise Skip()
     what = 'det n=%d entries=%s layout=%s cond=%.1f' % (n, entries, layout, cond)
     ctx.cell('det', 'dim%d' % n, entries, layout)
@@ -815,9 +827,9 @@ def case_det(ctx, rng, n, entries, layout, ms=False):
     # the size eps * cond * |det| in det * inv^T: residue is measured against |det| x (size of the inputs on that chain / covariance input)
     gnat = [abs(d.v)] * len(tape.snaps)
     scale = max(scale, dense.delta_scale(tape.snaps, gnat))
-    got = tidy_residue(got, ref, tape.snaps, gnat, 1e-11 * cond)
-    compare_obs(ctx, got, ref, 'det:differs-from-cofactor-expansion', scale=scale, rtol=1e-11 * cond, vtol=1e-12 * cond, what=what,
-                value_scale=max(vscale, abs(ref['value']), 1e-300), rv_tol=1e-10 * cond)
+    got = tidy_residue(got, ref, tape.snaps, gnat, 1e-12 * cond)
+    compare_obs(ctx, got, ref, 'det:differs-from-cofactor-expansion', scale=scale, rtol=1e-12 * cond, vtol=1e-13 * cond, what=what,
+                value_scale=max(vscale, abs(ref['value']), 1e-300), rv_tol=1e-12 * cond)
     nontrivial(ctx, tape, 'det', n, [mc], chains)
 
 
@@ -936,7 +948,7 @@ def case_pinv(ctx, rng, n, m, entries, layout, ms=False):
         desc = describe(a)
         mc = np.real(central(desc))
         s = np.linalg.svd(mc, compute_uv=False)
-        if not (s[-1] > 0.3 and s[0] / s[-1] < 30):
+        if not (s[-1] > COND['smin'] and s[0] / s[-1] < COND['max']):
             raise Skip()
         cond = float(s[0] / s[-1])
         what = 'pinv %dx%d entries=%s layout=%s cond=%.1f' % (n, m, entries, layout, cond)
@@ -969,7 +981,7 @@ def case_svd(ctx, rng, n, m, entries, layout, ms=False):
         mc = np.real(central(desc))
         s = np.linalg.svd(mc, compute_uv=False)
         gaps = np.abs(np.diff(s)) if k > 1 else np.array([1.0])
-        if not (s[-1] > 0.3 and s[0] / s[-1] < 30 and np.min(gaps) > 0.15):
+        if not (s[-1] > COND['smin'] and s[0] / s[-1] < COND['max'] and np.min(gaps) > min(0.15, 0.5 * COND['smin'])):
             raise Skip()
         kappa = float(max(s[0] / s[-1], s[0] / np.min(gaps)))
         what = 'svd %dx%d entries=%s layout=%s kappa=%.1f' % (n, m, entries, layout, kappa)
@@ -1384,6 +1396,9 @@ def plan(tier):
             p.append(('jack:%d:%s:%s' % (nfac, 'Obs' if nfac != 3 else 'CObs', lay), 10 * m))
         p.append(('jack:%d:%s:regular' % (nfac, 'Obs' if nfac != 4 else 'CObs'), 6 * m))
         p.append(('jack:%d:%s:jack_two_chains' % (nfac, 'Obs' if nfac != 3 else 'CObs'), 2 * m))
+    for op in ('inv', 'det', 'cholesky', 'pinv', 'svd'):
+        for n_ in (2, 3, 4):
+            p.append(('illcond:%s:%d' % (op, n_), 4 * m))
     for which in ('cholesky_cobs', 'det_list'):
         p.append(('refuse:%s' % which, 26 * m))
     for form in EINSUM_FORMS:
@@ -1402,7 +1417,30 @@ def plan(tier):
 def run_case(ctx, kind, idx, rng):
     k = kind.split(':')
     SECOND_CALL[0] = bool(rng.random() < 0.9)
-    if k[0] == 'refuse':
+    if k[0] == 'illcond':
+        # near singular but inside the quantifier: condition number 1e2 .. 1e3 (tolerances scale with it)
+        try:
+            COND.update(max=5000.0, smin=5e-4, lo=float(3.0 / 10 ** rng.uniform(2.0, 3.0)))
+            ctx.count('ill_conditioned_cases')
+            op, n_, lay = k[1], int(k[2]), str(rng.choice(LAYOUTS))
+            ent = str(rng.choice(['Obs', 'Obs', 'mixed'] if op != 'inv' else ['Obs', 'mixed', 'CObs']))
+            if op == 'inv':
+                case_inv(ctx, rng, n_, ent, lay)
+            elif op == 'det':
+                case_det(ctx, rng, n_, ent, lay)
+            elif op == 'cholesky':
+                case_cholesky(ctx, rng, n_, ent, lay)
+            elif op == 'pinv':
+                case_pinv(ctx, rng, n_, int(rng.choice([n_, max(2, n_ - 1)])), ent, lay)
+            else:
+                case_svd(ctx, rng, n_, int(rng.choice([n_, max(2, n_ - 1)])), ent, lay)
+        except np.linalg.LinAlgError:
+            # the central matrix is inside the thresholds, the matrix of some replica means is not (not positive definite / singular): outside the quantifier
+            ctx.count('ill_conditioned_case_singular_at_replica_means')
+            raise Skip()
+        finally:
+            COND.update(max=30.0, smin=0.3, lo=None)
+    elif k[0] == 'refuse':
         case_refusals(ctx, rng, k[1])
     elif k[0] == 'ms':
         op, n_, lay = k[1], int(k[2]), k[3]
